@@ -33,6 +33,8 @@ def program(style, marks, inline, noise):
         elif style == "predoc":
             L.append(f"{indent}!{pm} {first}")
             L.append(f"{indent}!{pm} {rest}")
+            if noise == 2:
+                L.extend(["", f"{indent}! an ordinary comment INNER{tag}", ""])
             L.append(f"{indent}{stmt}")
         elif style == "doc_alt":
             L.append(f"{indent}{stmt}")
@@ -41,6 +43,9 @@ def program(style, marks, inline, noise):
         else:
             L.append(f"{indent}!{pa} {first}")
             L.append(f"{indent}! {rest}")
+            if noise == 2:
+                # a blank line ends the block in which every comment is documentation
+                L.extend(["", f"{indent}! an ordinary comment INNER{tag}", ""])
             L.append(f"{indent}{stmt}")
         if noise:
             L.append("")
@@ -83,8 +88,10 @@ MARKS = [("!", ">", "*", "|"), ("^", "]", "~", "@")]
 
 
 def attach_cases():
-    for style, marks, inline, noise in itertools.product(["doc", "predoc", "doc_alt", "predoc_alt"], MARKS, [False, True], [False, True]):
+    for style, marks, inline, noise in itertools.product(["doc", "predoc", "doc_alt", "predoc_alt"], MARKS, [False, True], [False, True, 2]):
         if inline and style != "doc":
+            continue
+        if noise == 2 and style not in ("predoc", "predoc_alt"):
             continue
         yield style, marks, inline, noise
 
@@ -124,7 +131,15 @@ BLOCKS = {
     "note_inline_end": lambda t: [f"@bug {t}n1 {t}n2 @endbug"],
     "note_list": lambda t: [f"@todo", f"- {t}n1", f"- {t}n2", "@endtodo"],
     "note_unterminated": lambda t: [f"@history {t}n1", f"{t}n2"],
+    "pre_note": lambda t: [f"{t}p1 @note {t}n1 {t}n2"],                                   # text before the marker on the same line
+    "note_end_then_text": lambda t: ["@note", f"{t}n1", "@endnote", f"{t}p1 {t}p2"],       # text on the line after a bare end marker
+    "note_inline_end_then_text": lambda t: [f"@note {t}n1 @endnote", f"{t}p1"],
+    "marker_inside_a_word": lambda t: [f"{t}p1 @notes {t}p2"],                             # '@notes' is not a marker
 }
+# the tracer words of each block kind that belong inside a box (all others are shown outside any box)
+BOXED = {"note": ("n1", "n2"), "note_end": ("n1", "n2"), "note_end_post": ("n1",), "note_inline_end": ("n1", "n2"), "note_list": ("n1", "n2"), "note_unterminated": ("n1", "n2"),
+         "pre_note": ("n1", "n2"), "note_end_then_text": ("n1",), "note_inline_end_then_text": ("n1",)}
+ENDED = ("note_end", "note_end_post", "note_inline_end", "note_list", "note_end_then_text", "note_inline_end_then_text")
 SEPS = [[""], []]       # blank line between blocks or blocks directly adjacent
 
 
@@ -147,7 +162,7 @@ def render_cases(maxblocks=3):
             for sep in SEPS:
                 lines = []
                 for i, k in enumerate(combo):
-                    ended = combo[i - 1] in ("note_end", "note_end_post", "note_inline_end", "note_list") if i else False
+                    ended = combo[i - 1] in ENDED if i else False
                     if i and (sep or not (ended or (k.startswith("note") and combo[i - 1].startswith("note")))):
                         # markdown itself needs a blank line between ordinary blocks; note boxes may be adjacent to each other
                         lines += [""]
@@ -166,6 +181,16 @@ def search_render():
         got = [w for w in re.findall(r"[A-Za-z]\w*", text) if re.match(r"^[a-z]\d+[plcn]\d$", w)]
         if got != exp:
             return {"confirmed": True, "input": lines, "actual": got, "expected": exp, "how": f"words of the rendered HTML, blocks {combo}"}
+        # which words sit inside a note box
+        inside = set()
+        for m in re.finditer(r'<div class="alert[^"]*">(.*?)</div>', out, re.S):
+            inside |= {w for w in re.findall(r"[A-Za-z]\w*", html.unescape(re.sub(r"<[^>]+>", " ", m.group(1)))) if re.match(r"^[a-z]\d+[plcn]\d$", w)}
+        want_inside = {f"b{i}{suffix}" for i, k in enumerate(combo) for suffix in BOXED.get(k, ())}
+        # an indented code block right after a box is, for Markdown itself, more body of the box: membership is not compared for those layouts
+        ambiguous = any(k == "code" and i and combo[i - 1] in BOXED for i, k in enumerate(combo))
+        if inside != want_inside and not ambiguous:
+            return {"confirmed": True, "input": lines, "actual": {"inside a box": sorted(inside)}, "expected": {"inside a box": sorted(want_inside)},
+                    "how": f"membership of the tracer words in note boxes of the rendered HTML, blocks {combo}"}
     return None
 
 
